@@ -237,8 +237,52 @@ func confuse(g *gen.G, v any) any {
 	return v
 }
 
+// tame keeps generated inputs inside the property's bounds: $repeat counts
+// stay small and no whole-document self-reference ($merge: []) is generated
+// (two of those are the listed known finding and are probed separately).
+func tame(v any) any {
+	switch x := v.(type) {
+	case map[string]any:
+		for k, e := range x {
+			switch k {
+			case "$repeat":
+				if n, ok := e.(int); ok && (n > 5 || n < 0) {
+					x[k] = ((n%4)+4)%4
+				}
+				if m, ok := e.(map[string]any); ok {
+					for kk, ee := range m {
+						if n, ok := ee.(int); ok && (n > 4 || n < 0) {
+							m[kk] = ((n%3)+3)%3
+						}
+					}
+				}
+			case "$merge", "$replace":
+				if l, ok := e.([]any); ok && len(l) == 0 {
+					x[k] = []any{"t0"}
+				} else {
+					x[k] = tame(e)
+				}
+			default:
+				x[k] = tame(e)
+			}
+		}
+		return x
+	case []any:
+		for i, e := range x {
+			x[i] = tame(e)
+		}
+		return x
+	}
+	return v
+}
+
 func C08(r *Run) {
+	if !r.Thorough() {
+		ShardSubset = 2 // a third of the 20^3 reference graphs per quick run
+	}
+	ModelFuel = 24 // the graphs nest at most 8 deep; a smaller guard makes the cyclic ones cheap for TLC
 	st := modelEvalWith(r, "C08", 1, replayEvalCLI(r))
+	ShardSubset, ModelFuel = 0, 64
 	r.Logf("model done: %d reference graphs replayed through the CLI", st.Replayed)
 	g := gen.New(r.Seed*472882027 + 8)
 	rng := rand.New(rand.NewSource(r.Seed*7 + 8))
@@ -312,10 +356,10 @@ func C08(r *Run) {
 	// (iii) generated documents, type-confused, in three formats, then byte-mutated
 	ng := r.Pick(400, 20000)
 	for i := 0; i < ng; i++ {
-		lower := confuse(g, g.EvalDoc())
+		lower := tame(confuse(g, g.EvalDoc()))
 		var upper any
 		if g.P(0.7) {
-			upper = confuse(g, g.Patch(lower, 2))
+			upper = tame(confuse(g, g.Patch(lower, 2)))
 		}
 		e1 := g.Pick([]string{"json", "yaml", "toml"})
 		e2 := g.Pick([]string{"json", "yaml", "toml"})
@@ -392,6 +436,16 @@ func C08(r *Run) {
 				})
 			}
 		}
+	}
+	// YAML alias cycles (a node that contains an alias to itself)
+	for _, y := range []string{"a: &x\n  b: *x\n", "&r\n- *r\n", "a: &x\n  b: &y\n    c: *x\n    d: *y\n"} {
+		y := y
+		submit(func() [][]byte {
+			d := newDir()
+			defer os.RemoveAll(d)
+			os.WriteFile(filepath.Join(d, "a.yaml"), []byte(y), 0o644)
+			return toolRuns(d, "a.yaml", "", nil, "yaml alias cycle")
+		})
 	}
 	// known findings, probed directly
 	submit(func() [][]byte {
